@@ -250,6 +250,7 @@ class SctpRig:
         self.cumtsn_regress = {"A": 0, "B": 0}
         self.reconfig_dropped = 0
         self.reconfig_req = {}
+        self.open_on_closing = set()
         self.reconfig_lost_streams = set()
         self.last_delivery_step = 0
 
@@ -396,12 +397,27 @@ class SctpRig:
                     except Exception:
                         pass
                 if "data" in kind:
+                    self._note_open_on_closing(dst, data)
                     if n < self._max_data_ord.get(direction, -1):
                         ws["rx_data_out_of_order"] += 1
                     else:
                         self._max_data_ord[direction] = n
 
         return tap
+
+    def _note_open_on_closing(self, dst, data):
+        """A DCEP OPEN arriving for a stream id whose previous channel is still 'closing' at the receiver (the sender
+        freed and re-used the id before the receiver finished the close handshake): classifier of a known finding."""
+        st = self.st
+        try:
+            for c in st.parse_packet(data)[3]:
+                if isinstance(c, st.DataChunk) and c.protocol == st.WEBRTC_DCEP and c.user_data[:1] == b"\x03":
+                    ch = dst.sctp._data_channels.get(c.stream_id)
+                    if ch is not None and ch.readyState == "closing":
+                        self.open_on_closing.add((dst.name, c.stream_id))
+                        self.counters["open_arrived_on_closing_id"] += 1
+        except Exception:
+            pass
 
     def _tap_reconfig(self, direction, chunk, dropped):
         """Which stream ids had a reset request, or the response to it, dropped by the link (D16 classifier)."""
